@@ -48,4 +48,15 @@ def run : PT → Nat → List Op → Option (PT × Nat)
     | none => none
     | some (s', shrank) => run s' (if shrank then space - 4 * 2048 else space) ops
 
+/-- pycdlib.py `_add_to_ptr_size`: every copy of the PVD is told about the new record; the path tables exist once, so
+the space they need (four extents) is charged once however many copies say "grew" -/
+def addAll (copies : List PT) (n : Nat) : List PT × Nat :=
+  let rs := copies.map (add · n)
+  (rs.map (·.1), if rs.any (·.2) then 4 * 2048 else 0)
+
+/-- the accounting before the repair: four extents per copy that says "grew" -/
+def addAllOld (copies : List PT) (n : Nat) : List PT × Nat :=
+  let rs := copies.map (add · n)
+  (rs.map (·.1), (rs.filter (·.2)).length * (4 * 2048))
+
 end Pycdlib.PathTable
